@@ -7,7 +7,15 @@ Definition mem_eqb (l : list string) (s : string) : bool := existsb (String.eqb 
 (* memory primitives a C compiler may emit calls to by itself *)
 Definition mem_prims : list string := ["memcpy"; "memset"; "memmove"; "memcmp"].
 (* compiler / linker runtime that is not a service of the environment *)
-Definition compiler_runtime : list string := ["_GLOBAL_OFFSET_TABLE_"; "__stack_chk_fail"; "__stack_chk_guard"].
+Definition compiler_runtime : list string :=
+  ["_GLOBAL_OFFSET_TABLE_"; "__stack_chk_fail"; "__stack_chk_guard";
+   (* 64-bit arithmetic and block-memory helpers a compiler emits by itself on 32-bit targets (libgcc / compiler-rt /
+      ARM EABI / MSVC run-time support): part of the compiler, not a service of the environment *)
+   "__udivdi3"; "__umoddi3"; "__divdi3"; "__moddi3"; "__muldi3"; "__ashldi3"; "__lshrdi3"; "__ashrdi3"; "__udivmoddi4";
+   "__aeabi_uldivmod"; "__aeabi_ldivmod"; "__aeabi_lmul"; "__aeabi_llsl"; "__aeabi_llsr";
+   "__aeabi_memcpy"; "__aeabi_memcpy4"; "__aeabi_memcpy8"; "__aeabi_memset"; "__aeabi_memset4"; "__aeabi_memset8";
+   "__aeabi_memclr"; "__aeabi_memclr4"; "__aeabi_memclr8"; "__aeabi_memmove"; "__aeabi_memmove4"; "__aeabi_memmove8";
+   "_aulldiv"; "_aullrem"; "_alldiv"; "_allrem"; "_allmul"; "_aullshr"; "_allshl"; "_allshr"; "__chkstk"; "_chkstk"].
 Definition allowed (api : list string) (s : string) : bool :=
   mem_eqb api s || mem_eqb mem_prims s || mem_eqb compiler_runtime s.
 (* headers every conforming freestanding implementation provides: no C library, no OS *)
